@@ -122,6 +122,7 @@ func (cln *Client) Connect(uri string, msg *message.ConnectMessage) (err error) 
 	if err != nil {
 		return err
 	}
+	cln.svc.setConnect(msg)
 
 	p := topics.NewMemProvider()
 	topics.Register(cln.svc.sess.ID(), p)
@@ -205,6 +206,7 @@ func (cln *Client) ConnectTLS(uri string, msg *message.ConnectMessage, cfg *tls.
 	if err != nil {
 		return err
 	}
+	cln.svc.setConnect(msg)
 
 	p := topics.NewMemProvider()
 	topics.Register(cln.svc.sess.ID(), p)
